@@ -4,7 +4,8 @@ Tr == ndJsonDeserialize(IOEnv.TRACE_FILE)
 VARIABLES l, viol
 Init == l = 1 /\ viol = <<>>
 Next == /\ l <= Len(Tr) /\ l' = l + 1
-        /\ viol' = IF Tr[l].c.kind = "resp" THEN CheckResp(Tr[l].c, Tr[l].o) ELSE CheckReq(Tr[l].c, Tr[l].o)
+        /\ viol' = IF Tr[l].c.kind = "resp" THEN CheckResp(Tr[l].c, Tr[l].o)
+                   ELSE IF Tr[l].c.kind = "head" THEN CheckHead(Tr[l].c, Tr[l].o) ELSE CheckReq(Tr[l].c, Tr[l].o)
 Report == viol = <<>> \/ PrintT("VIOL " \o ToJson([line |-> l - 1, v |-> viol]))
 Consumed == TLCGet("stats").diameter - 1 = Len(Tr)
 =============================================================================
